@@ -14,7 +14,7 @@ FaultsFull ==
       F("lone", 1, 0, 0),
       F("frag", 1, 2, "tail"), F("frag", 1, 1, "tail"), F("frag", 2, 6, "tail"),
       F("frag", 1, 2, "tailx"), F("frag", 1, 2, "tailc"),
-      F("dup", 1, 0, 0), F("ansg", 1, 0, 0),
+      F("dup", 1, 0, 0), F("ansg", 1, 0, 0), F("gans", 1, 0, 0),
       F("pclose", 2, 0, 0),
       F("err", 2, 0, 101), F("err", 2, 0, 111) }
 
@@ -29,4 +29,5 @@ FaultsHist ==
 
 FxAll == {"A", "B", "C", "D", "E", "F"}
 FxNone == {}
+FxNoF == {"A", "B", "C", "D", "E"}
 =============================================================================
